@@ -662,7 +662,19 @@ func (fc *FnCtx) assignedIn(nodes ...ast.Node) []modTarget {
 										if _, isStd := stdModels[fn.Origin().FullName()]; isStd && !mutatesReceiver(fn.Origin().FullName()) {
 											return true
 										}
-										if c := fc.e.contractForFunc(fn); c != nil && !c.Inline {
+										if tv := fc.info.TypeOf(sel.X); tv != nil && f != "" && f != "*" {
+											if _, isPtrExpr := tv.Underlying().(*types.Pointer); isPtrExpr {
+												if _, isStd := stdModels[fn.Origin().FullName()]; !isStd {
+													// a method called through a pointer-typed field (g.w.Write): the object the field points
+													// to changes, the field itself keeps pointing to it
+													add(o, f+"->")
+													return true
+												}
+											}
+										}
+										if c := fc.e.contractForFunc(fn); c != nil && !c.Inline && c.ModAll {
+											add(o, "**")
+										} else if c := fc.e.contractForFunc(fn); c != nil && !c.Inline {
 											// contract's modifies decides; handled below
 											for _, m := range c.Modifies {
 												if r, fld := modRootField(m); r == sig.Recv().Name() {
@@ -691,6 +703,18 @@ func (fc *FnCtx) assignedIn(nodes ...ast.Node) []modTarget {
 					switch fn.FullName() {
 					case "unicode/utf8.EncodeRune":
 						add(rootOf(s.Args[0]))
+					}
+				}
+				// "modifies *": whatever the arguments reach
+				if fn := calleeFunc(fc.info, s); fn != nil {
+					if c := fc.e.contractForFunc(fn); c != nil && c.ModAll {
+						for _, a := range s.Args {
+							if o, _ := rootOf(a); o != nil {
+								if _, isVar := o.(*types.Var); isVar {
+									add(o, "**")
+								}
+							}
+						}
 					}
 				}
 				// arguments named in a contract's modifies
@@ -750,6 +774,22 @@ func (fc *FnCtx) havoc(st *State, targets []modTarget, extra []string) {
 		v, ok := st.vars[t.obj]
 		if !ok {
 			// package-level variable or not yet declared
+			continue
+		}
+		if strings.HasSuffix(t.field, "->") {
+			if p, isPtr := v.(*PtrV); isPtr && p.Obj >= 0 {
+				if sv, ok := st.heap[p.Obj].(*StructV); ok {
+					if fv, ok := sv.F[strings.TrimSuffix(t.field, "->")]; ok {
+						fc.ec(st).havocReachable(nil, []Value{fv})
+						continue
+					}
+				}
+			}
+			continue
+		}
+		if t.field == "**" {
+			// deep: everything the variable reaches keeps its identity and loses its contents
+			fc.ec(st).havocReachable(nil, []Value{v})
 			continue
 		}
 		if p, isPtr := v.(*PtrV); isPtr && t.field != "" {
@@ -843,6 +883,10 @@ func (fc *FnCtx) loopSpec(s ast.Stmt) (*LoopSpec, int) {
 	n := fc.loopOrd[s]
 	if fc.c != nil {
 		if ls := fc.c.Loops[n]; ls != nil {
+			return ls, n
+		}
+		// loop 0: the default for every loop without clauses of its own
+		if ls := fc.c.Loops[0]; ls != nil {
 			return ls, n
 		}
 	}
